@@ -112,6 +112,9 @@ def _validate(ctx, traces, plan, impl_sims):
         msg = "MODEL-DRIFT: execution accepted by ResizeAbs but not by Resize at event %d: %s" % (p2, il[min(p2, len(il) - 1)])
         print(msg, flush=True)
         ctx.notes.append(msg)
+    elif ok2 is None and "Parsing or semantic analysis failed" in ((r2.violation or "") + (r2.out_tail or "")):
+        # a trace specification that does not parse checks nothing (this went unnoticed once)
+        ctx.inconclusive.append("TraceResize.tla does not parse: %s" % ((r2.violation or r2.out_tail)[-600:]))
     elif ok2 is None:
         ctx.notes.append("no verdict from TraceResize (implementation-level): %s" % ((r2.violation or r2.out_tail)[-600:]))
 
